@@ -8,8 +8,10 @@
    (SymReduceDefs!OutsideCone with the boundary thickness `thick`):
      violation  unfolded reduced run # full run                         (the property as stated)
      drift      full run # sign * reduced[mirror source] by the spec's own index map / parity table
-   Co-located detector records (library-unfolded vs full run) are compared entry by entry with one extra cell of
-   margin for the co-location stencil.                                                                    *)
+   Co-located detector records (library-unfolded vs full run; Field and Phasor detectors, also with component subsets
+   given in non-canonical order) are compared entry by entry with one extra cell of margin for the co-location
+   stencil; volume-reduced records over a plane-straddling region that lies outside the light cone are compared
+   component by component, for the components sampled half a cell off the plane (SymReduceDefs!SampledOffPlane).                                                                    *)
 EXTENDS Integers, Sequences, FiniteSets, TLC, TLCExt, Json, IOUtils
 
 S == INSTANCE SymReduceDefs
@@ -26,10 +28,17 @@ MapOK(c, st, full, red, ft) ==
         S!OutsideCone(I, c.NF, c.ax, c.thick, st.t) =>
             LET s == S!MirrorSrc(I, c.NF, c.ax, ft, "ok")
             IN  s # 0 /\ R!NearL3(full[I], red[s], S!MirrorSign(I, c.NF, c.ax, ft, "ok"), c.tol)
-\* detector block: array (3, N) covering full-domain cells off.. along ax; guard with the shifted coordinate
+\* detector block: array (ncomp, N) (components in the detector's stored order) covering full-domain cells off.. along
+\* ax; guard with the shifted coordinate
 DetOK(c, d) ==
-    \A i \in 1..S!Size(d.N) :
+    \A i \in 1..Len(d.a) :
         (S!Coord(i, d.N, c.ax + 1) + d.off - c.thick > d.t + 1) => R!NearL3(d.b[i], d.a[i], 1, c.tol)
+\* volume-reduced record (one value per stored component) over a region that starts at full-domain cell `off` along
+\* ax and is mirror-symmetric about the plane: claimed only if the whole region is outside the light cone
+RDetGuard(c, d) == d.off - c.thick > d.t + 1 /\ d.off < c.NF[c.ax + 1] \div 2
+RDetOK(c, d) == \A i \in 1..Len(d.a) :
+                    S!SampledOffPlane(d.comps[i][1], d.comps[i][2], c.ax, d.coloc) => R!NearL3(d.b[i], d.a[i], 1, c.tol)
+RDetClaims(c, d) == \E i \in 1..Len(d.a) : S!SampledOffPlane(d.comps[i][1], d.comps[i][2], c.ax, d.coloc)
 Checked(c, st) == \E I \in 1..S!Size(c.NF) : S!OutsideCone(I, c.NF, c.ax, c.thick, st.t) /\ S!Coord(I, c.NF, c.ax + 1) < c.NF[c.ax + 1] \div 2
 
 WellFormed(c) ==
@@ -38,7 +47,9 @@ WellFormed(c) ==
          LET st == c.steps[k] IN
          /\ Len(st.Ef) = S!Size(c.NF) /\ Len(st.Hf) = S!Size(c.NF) /\ Len(st.Eu) = S!Size(c.NF) /\ Len(st.Hu) = S!Size(c.NF)
          /\ Len(st.Er) = S!Size(S!Halve(c.NF, c.ax)) /\ Len(st.Hr) = S!Size(S!Halve(c.NF, c.ax))
-    /\ \A k \in 1..Len(c.dets) : Len(c.dets[k].a) = S!Size(c.dets[k].N) /\ Len(c.dets[k].b) = S!Size(c.dets[k].N)
+    /\ \A k \in 1..Len(c.dets) : /\ Len(c.dets[k].a) = Len(c.dets[k].b) /\ Len(c.dets[k].a) >= 1
+                                   /\ Len(c.dets[k].a) % S!Cells(c.dets[k].N) = 0
+    /\ \A k \in 1..Len(c.rdets) : Len(c.rdets[k].a) = Len(c.rdets[k].b) /\ Len(c.rdets[k].comps) = Len(c.rdets[k].a) /\ RDetGuard(c, c.rdets[k])
     /\ Checked(c, c.steps[Len(c.steps)])        \* the mirrored half is still (partly) outside the cone at the end
 
 StepUnfoldOK(c, k) == UnfoldOK(c, c.steps[k], c.steps[k].Ef, c.steps[k].Eu) /\ UnfoldOK(c, c.steps[k], c.steps[k].Hf, c.steps[k].Hu)
@@ -51,6 +62,8 @@ Verdict(c) ==
          THEN "symmetry: unfolded reduced fields differ from the full-domain run outside the far boundary's light cone"
     ELSE IF \E k \in 1..Len(c.dets) : ~DetOK(c, c.dets[k])
          THEN "symmetry: unfolded co-located detector record differs from the full-domain record outside the light cone"
+    ELSE IF \E k \in 1..Len(c.rdets) : ~RDetOK(c, c.rdets[k])
+         THEN "symmetry: unfolded volume-reduced detector record differs from the full-domain record"
     ELSE IF \E k \in 2..Len(c.steps) : ~StepMapOK(c, k)
          THEN "drift: full-domain run differs from the reduced run under the spec's mirror map (library unfold agrees)"
     ELSE "ok"
